@@ -5,6 +5,8 @@
 #include <unistd.h>
 #include <sys/personality.h>
 #include <sched.h>
+#include <fcntl.h>
+#include <sys/file.h>
 
 static void usage() {
     fprintf(stderr, "usage: simx <C12|C13|C20> batch|replay [options]\n");
@@ -44,10 +46,12 @@ int main(int argc, char **argv) {
     // a fixed, minimal environment (DESIGN 3.3)
     bool nofaults = getenv("VERIF_NOFAULTS") != nullptr;
     bool stress = getenv("VERIF_STRESS") != nullptr;
+    bool nopin = getenv("VERIF_NOPIN") != nullptr;
     std::string dump_unhit = getenv("VERIF_DUMP_UNHIT") ? getenv("VERIF_DUMP_UNHIT") : "";
     clearenv();
     if (nofaults) setenv("VERIF_NOFAULTS", "1", 1);
     if (stress) setenv("VERIF_STRESS", "1", 1);
+    if (nopin) setenv("VERIF_NOPIN", "1", 1);
     if (!dump_unhit.empty()) setenv("VERIF_DUMP_UNHIT", dump_unhit.c_str(), 1);
     setenv("TZ", "UTC", 1);
     setenv("VERIF_ENV_A", "alpha", 1);
@@ -60,13 +64,26 @@ int main(int argc, char **argv) {
     setenv("TMPDIR", "/tmp", 1);
     setvbuf(stdout, nullptr, _IOLBF, 0);
     if (a.mode == "batch") {
-        // all threads of a worker on one CPU: the baton hand-off is then a plain context switch
+        // all threads of a worker on one CPU: the baton hand-off is then a plain context switch. CPUs are claimed
+        // through lock files so that workers of concurrently running checks do not pile up on the same CPU
+        // (a pinned worker that shares its CPU with another one is several times slower than an unpinned one).
         long ncpu = sysconf(_SC_NPROCESSORS_ONLN);
-        if (ncpu > 1) {
-            cpu_set_t set;
-            CPU_ZERO(&set);
-            CPU_SET((1 + a.worker) % ncpu, &set);
-            sched_setaffinity(0, sizeof set, &set);
+        if (ncpu > 1 && !nopin) {
+            for (long k = 0; k < ncpu; k++) {
+                long cpu = (1 + a.worker + k) % ncpu;
+                char path[64];
+                snprintf(path, sizeof path, "/tmp/.verif-cpu-%ld.lock", cpu);
+                int fd = open(path, O_CREAT | O_RDWR | O_CLOEXEC, 0666);
+                if (fd < 0) continue;
+                if (flock(fd, LOCK_EX | LOCK_NB) == 0) { // kept for the life of the process
+                    cpu_set_t set;
+                    CPU_ZERO(&set);
+                    CPU_SET(cpu, &set);
+                    sched_setaffinity(0, sizeof set, &set);
+                    break;
+                }
+                close(fd);
+            }
         }
     }
     sim_global_init(argv[0]);
